@@ -86,6 +86,7 @@ func c09(c *core.Check) {
 	if app == nil || rem == nil || get == nil {
 		return
 	}
+	keyInjective(c, "C09-R0") // a map from tuples needs distinct tuples to have distinct keys (shared with C08-R1)
 	c.Rule("C09-R1", "PAIRED: the Metric fields whose type mentions LabelValue are each written in RemoveDatum if they are written on insertion (AppendLabelValue/GetDatum); in AppendLabelValue the slice append and the map store alternate on every path; in RemoveDatum the splice and the map delete alternate")
 	if pkg := c.Prog.Pkgs["internal/metrics"]; pkg != nil {
 		st, _ := pkg.Types.Scope().Lookup("Metric").Type().Underlying().(*types.Struct)
@@ -157,47 +158,11 @@ func c09(c *core.Check) {
 			c.Verdict(okShape && !again, "C09-R5", mRemove+"|splice shape", pos(c, as), "removes exactly the found element, once", "the removal does not splice out exactly the element that was found (or keeps scanning after removing): another tuple's entry is dropped or the slice is corrupted")
 		}
 	}
-	nsort := 0
 	for _, sf := range shipped(c) {
-		info := sf.Info()
-		aliases := map[types.Object]bool{}
-		isLV := func(e ast.Expr) bool {
-			for {
-				if se, ok := core.Unparen(e).(*ast.SliceExpr); ok {
-					e = se.X
-					continue
-				}
-				break
-			}
-			if sel, ok := core.Unparen(e).(*ast.SelectorExpr); ok && sel.Sel.Name == "LabelValues" {
-				if s := info.Selections[sel]; s != nil && strings.HasSuffix(s.Recv().String(), "metrics.Metric") {
-					return true
-				}
-			}
-			if o := identObj(info, e); o != nil && aliases[o] {
-				return true
-			}
-			return false
-		}
+		isLV := lvAliases(sf)
 		ast.Inspect(sf.Body, func(n ast.Node) bool {
-			if as, ok := n.(*ast.AssignStmt); ok && len(as.Lhs) == len(as.Rhs) {
-				for i, r := range as.Rhs {
-					if isLV(r) {
-						if o := identObj(info, as.Lhs[i]); o != nil {
-							aliases[o] = true
-						}
-					}
-				}
-			}
-			return true
-		})
-		ast.Inspect(sf.Body, func(n ast.Node) bool {
-			if call, ok := n.(*ast.CallExpr); ok {
-				id := sf.CalleeID(call)
-				if (strings.HasPrefix(id, "sort.") || strings.HasPrefix(id, "slices.Sort")) && len(call.Args) > 0 && isLV(call.Args[0]) {
-					nsort++
-					c.Fail("C09-R5", sf.Key+"|sorts the label value slice", pos(c, call), "the metric's insertion-ordered slice (or a reslice sharing its backing array) is sorted in place: enumeration order changes and a concurrent or interleaved removal shifts elements under the sort")
-				}
+			if call, ok := n.(*ast.CallExpr); ok && isSortCall(sf, call) && isLV(call.Args[0]) {
+				c.Fail("C09-R5", sf.Key+"|sorts the label value slice", pos(c, call), "the metric's insertion-ordered slice (or a reslice sharing its backing array) is sorted in place: enumeration order changes and a concurrent or interleaved removal shifts elements under the sort")
 			}
 			return true
 		})
@@ -371,7 +336,7 @@ func c09(c *core.Check) {
 }
 
 func c10(c *core.Check) {
-	c.Explain = "Decides structural necessary conditions of C10 in Store.Gc and the metric primitives it uses: (R1) on every path the size-limit phase precedes the expiry phase; (R2) the limit phase is guarded by Limit > 0 and removes the oldest datum exactly once per datum in excess (loop from len down to Limit); (R3) the victim is chosen by an arg-min fold over all label values whose only use of the timestamps is `candidate.Before(best)` — evaluated on the three orderings the kept victim is never newer than a discarded candidate — and exactly that victim's tuple is removed; (R4) expiry removal is dominated by Expiry > 0 and by `now.Sub(last update) > Expiry` (strict) with `now` taken once before the iteration; (R5) after removing element i of the slice being scanned the index is decremented before it is advanced; (R6) everything GC can write is the metric's slice/map pair.  Wall-clock values and the data races of the unlocked reads (C11) are not decided here."
+	c.Explain = "Decides structural necessary conditions of C10 in Store.Gc and the metric primitives it uses: (R1) on every path the size-limit phase precedes the expiry phase; (R2) the limit phase is guarded by Limit > 0 and removes the oldest datum exactly once per datum in excess (loop from len down to Limit); (R3) the victim is chosen by an arg-min fold over all label values whose only use of the timestamps is `candidate.Before(best)` — evaluated on the three orderings the kept victim is never newer than a discarded candidate — and exactly that victim's tuple is removed; (R4) expiry removal is dominated by Expiry > 0 and by `now.Sub(last update) > Expiry` (strict) with `now` taken once before the iteration; (R5) after removing element i of the slice being scanned the index is decremented before it is advanced; (R6) everything GC can write is the metric's slice/map pair and the slice is never reordered; (R7) no range loop over the slice (or an alias of its backing array) keeps iterating after removing an element.  Wall-clock values and the data races of the unlocked reads (C11) are not decided here."
 	c.Assume = append(c.Assume, "time.Time.Before/Sub semantics")
 	gcf := c.MustFn("C10-R1", storeGc)
 	old := c.MustFn("C10-R3", mOldest)
@@ -388,8 +353,40 @@ func c10(c *core.Check) {
 	}
 	c.Analysed(cb)
 	g := cb.Graph()
-	limitCalls := g.CallsTo(mOldest)
-	expCalls := g.CallsTo(mRemove)
+	// removal call sites of the callback, classified by the field their guard consults
+	rmv := removers(c)
+	var limitCalls, expCalls []core.Hit
+	info := cb.Info()
+	for _, h := range g.Calls(func(id string, call *ast.CallExpr) bool { cf := cb.CalleeFunc(call); return cf != nil && rmv[cf] }) {
+		byLimit, byExpiry := false, false
+		core.InspectNoLit(cb.Body, func(n ast.Node) bool {
+			if n == nil || !(n.Pos() <= h.N.Pos() && h.N.End() <= n.End()) {
+				return true
+			}
+			var cond ast.Expr
+			switch x := n.(type) {
+			case *ast.IfStmt:
+				if x.Body.Pos() <= h.N.Pos() && h.N.End() <= x.Body.End() {
+					cond = x.Cond
+				}
+			case *ast.ForStmt:
+				cond = x.Cond
+			}
+			if cond != nil {
+				byLimit = byLimit || fieldUsed(info, cond, "metrics.Metric", "Limit")
+				byExpiry = byExpiry || fieldUsed(info, cond, "metrics.LabelValue", "Expiry")
+			}
+			return true
+		})
+		switch {
+		case byLimit && !byExpiry:
+			limitCalls = append(limitCalls, h)
+		case byExpiry && !byLimit:
+			expCalls = append(expCalls, h)
+		default:
+			c.Undecided("C10-R1", cb.Key+"|removal", pos(c, h.N), "a removal in the GC callback is guarded by neither (or both of) Metric.Limit and LabelValue.Expiry: phase not recognised")
+		}
+	}
 
 	c.Rule("C10-R1", "ORDER: in the GC callback no path leads from the expiry removal to the limit removal, and every path to the expiry scan has passed the limit phase's guard")
 	if len(limitCalls) == 0 || len(expCalls) == 0 {
@@ -420,7 +417,11 @@ func c10(c *core.Check) {
 			return true
 		})
 		if loop == nil {
-			c.Fail("C10-R2", key, pos(c, h.N), "the oldest datum is removed once, not once per datum in excess of the limit")
+			if len(h.N.(*ast.CallExpr).Args) == 0 {
+				c.Fail("C10-R2", key, pos(c, h.N), "the oldest datum is removed once, not once per datum in excess of the limit")
+			} else {
+				c.Undecided("C10-R2", key, pos(c, h.N), "the limit phase is not a loop around a remove-one call: its count is not recognised")
+			}
 			continue
 		}
 		init, cond, post := "", "", ""
@@ -632,5 +633,171 @@ func c10(c *core.Check) {
 		}
 		c.Verdict(len(extra) == 0 && ws["Metric.LabelValues"], "C10-R6", storeGc+"|write set", pos(c, gcf.Decl), "only the slice/map pair", "a GC pass can also assign "+strings.Join(extra, ", ")+": something other than the removed data changes")
 	}
+	for _, f := range closureFrom(c.Prog.FuncOf[cb.Decl]) {
+		if core.Rel(f.Pkg.PkgPath) != "internal/metrics" {
+			continue
+		}
+		isLV := lvAliases(f)
+		ast.Inspect(f.Body, func(n ast.Node) bool {
+			if call, ok := n.(*ast.CallExpr); ok && isSortCall(f, call) && isLV(call.Args[0]) {
+				c.Fail("C10-R6", f.Key+"|reorders the slice", pos(c, call), "a GC pass sorts the metric's own label-value slice (a reslice shares its backing array): the enumeration order of data that are kept changes, and removals made while walking the sorted alias shift elements under the walk")
+			}
+			return true
+		})
+	}
 	c.Floor("C10-R6", 1)
+
+	c.Rule("C10-R7", "STABLE-ITERATION: a `range` loop over a metric's LabelValues (or a reslice/alias of it, which shares the backing array) whose body can remove a label value must leave the loop right after the removal — the splice shifts later elements one slot down under the iteration, so the walk would skip elements and see stale ones; index loops are covered by R5")
+	n7 := 0
+	for _, f := range shipped(c) {
+		if core.Rel(f.Pkg.PkgPath) != "internal/metrics" {
+			continue
+		}
+		lvBase := lvBases(f)
+		fg := f.Graph()
+		for _, rs := range rangeStmts(f) {
+			ranged, isLV := lvBase(rs.X)
+			if !isLV {
+				continue
+			}
+			n7++
+			key := fmt.Sprintf("%s|range over label values#%d", f.Key, n7)
+			head, _, _ := loopBlocks(fg, rs)
+			bad := false
+			for _, h := range fg.Calls(func(id string, call *ast.CallExpr) bool {
+				cf := f.CalleeFunc(call)
+				return cf != nil && rmv[cf] && rs.Body.Pos() <= call.Pos() && call.End() <= rs.Body.End()
+			}) {
+				from := h.P
+				// whose label values does the call remove?  the receiver (or first argument) metric
+				var victim types.Object
+				call := h.N.(*ast.CallExpr)
+				if r := core.RecvExpr(call); r != nil {
+					victim = identObj(f.Info(), r)
+				}
+				if ranged != nil && victim != nil && ranged != victim {
+					continue // removes from another metric than the one iterated (Store.Add: old version v, new version m)
+				}
+				if ranged == nil || victim == nil {
+					bad = true
+					c.Undecided("C10-R7", key, pos(c, h.N), "cannot tell whether the removal inside the loop acts on the metric being iterated")
+					continue
+				}
+				if tr, again := fg.Search(core.Query{From: &from, Goal: func(p core.Point) bool { return p.B == head && p.I == 0 }}); again && head != nil {
+					bad = true
+					c.Fail("C10-R7", key, pos(c, h.N), "a label value is removed while a range loop over the metric's own slice (or an alias of its backing array) keeps iterating: the splice moves the following elements down, so the loop skips every other element and then reads stale duplicates — the data removed are not the ones selected (for the size limit: not the oldest), and fewer than intended are removed", fg.Trail(tr)...)
+				}
+			}
+			if !bad {
+				c.Ok("C10-R7", key, pos(c, rs), "no removal inside the loop continues the iteration")
+			}
+		}
+	}
+	c.Floor("C10-R7", 2)
+}
+
+// isSortCall reports whether call is an in-place sort of its first argument.
+func isSortCall(f *core.Func, call *ast.CallExpr) bool {
+	id := f.CalleeID(call)
+	return len(call.Args) > 0 && (strings.HasPrefix(id, "sort.") || strings.HasPrefix(id, "slices.Sort") || id == "slices.Reverse")
+}
+
+// lvAliases returns a predicate telling whether an expression denotes the
+// backing array of some Metric's LabelValues inside f: the field itself, a
+// reslice of it, or a local assigned from one of those (not a copy made with
+// append/copy/make).
+func lvAliases(f *core.Func) func(ast.Expr) bool {
+	base := lvBases(f)
+	return func(e ast.Expr) bool { _, ok := base(e); return ok }
+}
+
+// lvBases is lvAliases that also tells whose LabelValues the expression
+// denotes: the object of the metric variable (nil when the metric is not named
+// by a plain identifier).
+func lvBases(f *core.Func) func(ast.Expr) (types.Object, bool) {
+	info := f.Info()
+	type al struct{ base types.Object }
+	aliases := map[types.Object]al{}
+	var isLV func(e ast.Expr) (types.Object, bool)
+	isLV = func(e ast.Expr) (types.Object, bool) {
+		for {
+			if se, ok := core.Unparen(e).(*ast.SliceExpr); ok {
+				e = se.X
+				continue
+			}
+			break
+		}
+		if sel, ok := core.Unparen(e).(*ast.SelectorExpr); ok {
+			if s := info.Selections[sel]; s != nil && s.Kind() == types.FieldVal && s.Obj().Name() == "LabelValues" && strings.HasSuffix(s.Recv().String(), "metrics.Metric") {
+				return identObj(info, sel.X), true
+			}
+		}
+		if o := identObj(info, e); o != nil {
+			if a, ok := aliases[o]; ok {
+				return a.base, true
+			}
+		}
+		return nil, false
+	}
+	for changed := true; changed; {
+		changed = false
+		ast.Inspect(f.Body, func(n ast.Node) bool {
+			if as, ok := n.(*ast.AssignStmt); ok && len(as.Lhs) == len(as.Rhs) {
+				for i, r := range as.Rhs {
+					if b, ok := isLV(r); ok {
+						if o := identObj(info, as.Lhs[i]); o != nil {
+							if _, have := aliases[o]; !have {
+								aliases[o] = al{b}
+								changed = true
+							}
+						}
+					}
+				}
+			}
+			return true
+		})
+	}
+	return isLV
+}
+
+// fieldUsed reports whether e reads the field `name` of the struct type whose
+// qualified name ends in recvSuffix.
+func fieldUsed(info *types.Info, e ast.Node, recvSuffix, name string) bool {
+	found := false
+	ast.Inspect(e, func(n ast.Node) bool {
+		if sel, ok := n.(*ast.SelectorExpr); ok {
+			if s := info.Selections[sel]; s != nil && s.Kind() == types.FieldVal && s.Obj().Name() == name && strings.HasSuffix(s.Recv().String(), recvSuffix) {
+				found = true
+			}
+		}
+		return !found
+	})
+	return found
+}
+
+// removers is the set of declared functions that splice a Metric's
+// LabelValues or (transitively) call one that does.
+func removers(c *core.Check) map[*core.Func]bool {
+	return c.Prog.Reaching(func(f *core.Func) bool {
+		if core.Rel(f.Pkg.PkgPath) != "internal/metrics" {
+			return false
+		}
+		isLV := lvAliases(f)
+		hit := false
+		ast.Inspect(f.Body, func(n ast.Node) bool {
+			if as, ok := n.(*ast.AssignStmt); ok && len(as.Lhs) == 1 && len(as.Rhs) == 1 && isLV(as.Lhs[0]) {
+				// append(s[:i], s[i+1:]...) or any reslice that drops elements
+				if call, ok := core.Unparen(as.Rhs[0]).(*ast.CallExpr); ok && f.CalleeID(call) == "builtin.append" && len(call.Args) > 0 {
+					if _, isSlice := core.Unparen(call.Args[0]).(*ast.SliceExpr); isSlice {
+						hit = true
+					}
+				}
+				if _, isSlice := core.Unparen(as.Rhs[0]).(*ast.SliceExpr); isSlice {
+					hit = true
+				}
+			}
+			return !hit
+		})
+		return hit
+	})
 }
